@@ -177,6 +177,20 @@ Definition flip (s : rst) (wrote : bool) : rst :=
      r_loc := r_loc s; r_drn := r_drn s; r_counted := r_counted s; r_closed := r_closed s;
      r_a0 := r_a0 s; r_old := r_old s; r_new := r_new s; r_acked := r_acked s; r_flipped := true |}.
 
+(* which keys an EAltWrite takes.  [fromb]: altPutBlind(batch) of the local
+   batch (795/806); otherwise the next chunk of the keys taken from the buffer
+   (drainBuf), after a takeBuf if they are not there yet.  Result: the new
+   (local batch, drained keys, buffer). *)
+Definition alt_sel (s : rst) (fromb : bool) (c : list mhk) : option (list mhk * list mhk * list mhk) :=
+  if fromb then (if list_mhk_eqb c (r_loc s) then Some ([], r_drn s, r_buf s) else None)
+  else match strip_prefix c (r_drn s) with
+       | Some d => Some (r_loc s, d, r_buf s)
+       | None => match strip_prefix c (r_drn s ++ r_buf s) with
+                 | Some d => Some (r_loc s, d, [])
+                 | None => None
+                 end
+       end.
+
 Definition rstep (pb : nat) (s : rst) (e : revent) : option rst :=
   if r_closed s then
     match e with
@@ -282,17 +296,7 @@ Definition rstep (pb : nat) (s : rst) (e : revent) : option rst :=
   | EAltWrite fromb c =>
       match r_ph s with
       | PFilling | PClean0 =>
-          (* [fromb]: altPutBlind(batch) of the local batch (795/806); otherwise the next
-             chunk of the keys taken from the buffer (drainBuf), after a takeBuf if
-             they are not there yet *)
-          let sel := if fromb then (if list_mhk_eqb c (r_loc s) then Some ([], r_drn s, r_buf s) else None)
-                     else match strip_prefix c (r_drn s) with
-                          | Some d => Some (r_loc s, d, r_buf s)
-                          | None => match strip_prefix c (r_drn s ++ r_buf s) with
-                                    | Some d => Some (r_loc s, d, [])
-                                    | None => None
-                                    end
-                          end in
+          let sel := alt_sel s fromb c in
           match c, sel with
           | _ :: _, Some (loc, drn, buf) =>
               if r_counted s then
